@@ -64,7 +64,7 @@ Definition amem {A} (k : str) (l : list (str * A)) : bool :=
   match alookup k l with Some _ => true | None => false end.
 
 (* ------------------------------------------------------------------ SyncedDict._update / SyncedList._update *)
-Fixpoint merge (old new : json) : json :=
+Fixpoint merge_rec (old new : json) : json :=
   match old with
   | JObj o =>
       match new with
@@ -75,7 +75,7 @@ Fixpoint merge (old new : json) : json :=
                    | [] => []
                    | (k, ov) :: r =>
                        match alookup k n with
-                       | Some nv => (k, merge ov nv) :: go r
+                       | Some nv => (k, merge_rec ov nv) :: go r
                        | None => go r
                        end
                    end) o
@@ -89,7 +89,7 @@ Fixpoint merge (old new : json) : json :=
           if py_eq new old then old else
           JArr ((fix go (l n : list json) : list json :=
                    match l, n with
-                   | x :: r, y :: r' => merge x y :: go r r'
+                   | x :: r, y :: r' => merge_rec x y :: go r r'
                    | _, rest => rest
                    end) o n)
       | JNull => old
@@ -98,10 +98,14 @@ Fixpoint merge (old new : json) : json :=
   | _ => if py_eq new old then old else new
   end.
 
+(* identical data is left alone (new == existing holds for it; dict keys are distinct in Python, so this
+   shortcut changes nothing on values that can occur) *)
+Definition merge (old new : json) : json := if json_eqb old new then old else merge_rec old new.
+
 (* The same function, except that the place where None fails to replace a container is made visible:
    used only by the known-finding classifier of the correspondence (CorrC05.classify_C05). *)
 Definition null_marker : json := JStr [60; 78; 79; 78; 69; 62]%N.   (* "<NONE>" *)
-Fixpoint merge_mark (old new : json) : json :=
+Fixpoint merge_mark_rec (old new : json) : json :=
   match old with
   | JObj o =>
       match new with
@@ -112,7 +116,7 @@ Fixpoint merge_mark (old new : json) : json :=
                    | [] => []
                    | (k, ov) :: r =>
                        match alookup k n with
-                       | Some nv => (k, merge_mark ov nv) :: go r
+                       | Some nv => (k, merge_mark_rec ov nv) :: go r
                        | None => go r
                        end
                    end) o
@@ -126,7 +130,7 @@ Fixpoint merge_mark (old new : json) : json :=
           if py_eq new old then old else
           JArr ((fix go (l n : list json) : list json :=
                    match l, n with
-                   | x :: r, y :: r' => merge_mark x y :: go r r'
+                   | x :: r, y :: r' => merge_mark_rec x y :: go r r'
                    | _, rest => rest
                    end) o n)
       | JNull => null_marker
@@ -134,6 +138,8 @@ Fixpoint merge_mark (old new : json) : json :=
       end
   | _ => if py_eq new old then old else new
   end.
+
+Definition merge_mark (old new : json) : json := if json_eqb old new then old else merge_mark_rec old new.
 
 (* ------------------------------------------------------------------ paths and operations *)
 Inductive pelem := PKey (k : str) | PIdx (i : N).
@@ -322,10 +328,11 @@ Section Buffered.
   Definition bsize (st : cstate) : N := fold_right (fun e acc => (blen (b_contents (snd e)) + acc)%N) 0%N (buf st).
 
   (* ---------------- unbuffered protocol: load-file; apply; write-file ---------------- *)
-  Definition needs_load (p : path) (o : dop) : bool :=
-    match p, o with
-    | [], OClear | [], OReset _ => false     (* clear()/reset() on the root do not load *)
-    | _, _ => true
+  (* clear()/reset() do not load before they overwrite; every other method does *)
+  Definition op_loads (o : dop) : bool :=
+    match o with
+    | OClear | OReset _ | LClear => false
+    | _ => true
     end.
 
   (* ---------------- the buffer ---------------- *)
@@ -394,26 +401,42 @@ Section Buffered.
     | S _ => save_buffered st h f m
     end.
 
+  (* d[e1][e2]...: every __getitem__ on the way loads the root again before it indexes *)
+  Fixpoint walk (st : cstate) (h f : N) (m : json) (pre p : path) : cstate * json * option exn :=
+    match p with
+    | [] => (st, m, None)
+    | e :: p' =>
+        let '(st1, m1) := load st h f m in
+        match get_at (pre ++ [e]) m1 with
+        | Err x => (st1, m1, Some x)
+        | Ok _ => walk st1 h f m1 (pre ++ [e]) p'
+        end
+    end.
+
   (* one document operation through collection h: what SyncedDict/SyncedList methods do *)
   Definition cop (st : cstate) (h : N) (p : path) (o : dop) : cstate * result json :=
     match nlookup h (mems st) with
     | None => (st, Err EOther)
     | Some (f, m0) =>
-        let '(st1, m1) := if needs_load p o then load st h f m0 else (st, m0) in
-        match get_at p m1 with
-        | Err e => (st1, Err e)                 (* raised by __getitem__ on the way: nothing is saved *)
-        | Ok t =>
-            if is_read o then (st1, Ok t)
-            else
-              match sync_apply o t with
-              | Ok (t', r) => (save st1 h f (set_at p t' m1), Ok r)
-              | Err e =>
-                  (* inside `with self._load_and_save:` — __exit__ saves whatever is in memory *)
-                  match o with
-                  | ODel _ | LSet _ _ | LDel _ => (save st1 h f m1, Err e)
-                  | _ => (st1, Err e)
+        match walk st h f m0 [] p with
+        | (st0, _, Some e) => (st0, Err e)        (* raised by __getitem__ on the way: nothing is saved *)
+        | (st0, m0', None) =>
+            let '(st1, m1) := if op_loads o then load st0 h f m0' else (st0, m0') in
+            match get_at p m1 with
+            | Err e => (st1, Err e)
+            | Ok t =>
+                if is_read o then (st1, Ok t)
+                else
+                  match sync_apply o t with
+                  | Ok (t', r) => (save st1 h f (set_at p t' m1), Ok r)
+                  | Err e =>
+                      (* inside `with self._load_and_save:` — __exit__ saves whatever is in memory *)
+                      match o with
+                      | ODel _ | LSet _ _ | LDel _ => (save st1 h f m1, Err e)
+                      | _ => (st1, Err e)
+                      end
                   end
-              end
+            end
         end
     end.
 
